@@ -489,9 +489,15 @@ def run(report):
                      'after every call the lock must be free, balanced and no lock error raised')
         report.require(any(k.endswith(':raise') for k in g['outcomes']), f'{name}: failing operations were exercised')
         report.require(g['outcomes'].get('add_graph/noid:raise', 0) > 0, f'{name}: import lacking NodeID fails inside the critical section')
-    bound = 2 if report.tier == 'quick' else 3
     scen = QUICK_SCEN if report.tier == 'quick' else list(SCENARIOS)
-    cases = [(fl, s, bound) for fl in ('shared', 'disjoint') for s in scen]
+
+    def bound_of(s):
+        if report.tier == 'quick':
+            return 2
+        # thorough: 3 preemptions for the two-thread harnesses; the three-thread ones and the longest two-thread one
+        # (whose schedule count grows with the cube of ~200 scheduling points) stay at 2
+        return 2 if (len(SCENARIOS[s]) > 2 or s == 'add2-add') else 3
+    cases = [(fl, s, bound_of(s)) for fl in ('shared', 'disjoint') for s in scen]
     g = explore_cases(report, 'schedules', _eval_and_pack, cases, chunk=1,
                       rule='each case = one 2-3 thread harness on one store flavour; ALL schedules with at most the stated '
                            'number of preemptions are executed (scheduling points before every shared-access instruction of the '
@@ -512,7 +518,7 @@ def run(report):
     g['states'] = len(stats)
     g['transitions'] = total_exec
     g['schedules_explored'] = total_exec
-    g['preemption_bound'] = bound
+    g['preemption_bound'] = {s: bound_of(s) for s in scen}
     g['per_harness'] = stats
     g['outcomes'] = {k: v for k, v in g['outcomes'].items() if not k.startswith('STAT|')}
     report.require(multi >= 2, 'at least two harnesses produced two or more distinct outcomes (threads really interleaved)')
